@@ -26,8 +26,9 @@ def harness_jobs(lib, label, full, masked_only=False, thorough=False):
     if masked_only:
         return jobs
     # the C++ classes on every keying path (null / zero-length keys use the library's internal all-zero key buffers) and the byte_array helpers
-    c17 = build.build_prog("c17", ["harness/c17.cpp", "harness/sysrand.c", "ref/ref.c"], lib, opt="-O1", cfg_dep=True)
-    jobs.append((c17, [], label, EX))
+    if thorough or label.startswith("gcc-c64-") or label.startswith("gcc-c32-"):
+        c17 = build.build_prog("c17", ["harness/c17.cpp", "harness/sysrand.c", "ref/ref.c"], lib, opt="-O1", cfg_dep=True)
+        jobs.append((c17, [], label, EX))
     c03 = prog("c03", ["harness/c03.c", "ref/ref.c"])
     c04 = prog("c04", ["harness/c04.c", "ref/ref.c"])
     c05 = prog("c05", ["harness/c05.c", "ref/ref.c"])
